@@ -116,9 +116,73 @@ func c04TickSpace(tier fw.Tier) docgen.TokenSpace {
 }
 
 type c04Case struct {
-	Init    int  `json:"init"`
-	History []Op `json:"history"`
-	ViaCLI  bool `json:"via_cli"`
+	Init     int      `json:"init"`
+	History  []Op     `json:"history"`
+	ViaCLI   bool     `json:"via_cli"`
+	Spelling int      `json:"spelling,omitempty"` // 1 + index into the spelling-equivalence family
+	Args     []string `json:"args,omitempty"`
+}
+
+// ---- the intended effect does not depend on how the command line is SPELLED: command aliases (in/out), short
+// flags and the hidden flag alias --should-total must behave exactly like the canonical long spelling (same exit
+// status, same bytes on disk), under every configuration. The canonical spellings are what the history search above
+// compares with the model.
+var c04SpellingPairs = [][2][]string{
+	{{"create", "--should=7h30m!"}, {"create", "--should-total=7h30m!"}},
+	{{"create", "--should=7h30m!", "--summary=New day", "--date=2021-03-15"}, {"create", "--should-total", "7h30m!", "-s", "New day", "-d", "2021-03-15"}},
+	{{"create", "--should=-30m!", "--tomorrow"}, {"create", "--should-total=-30m!", "--tomorrow"}},
+	{{"start", "--time=8:00", "--summary=a #t"}, {"in", "-t", "8:00", "-s", "a #t"}},
+	{{"stop", "--time=22:00", "--summary=done"}, {"out", "-t", "22:00", "-s", "done"}},
+	{{"start", "--round=15m"}, {"start", "-r", "15m"}},
+	{{"start", "--date=2021-03-11", "--time=9:00"}, {"start", "-d", "2021-03-11", "-t", "9:00"}},
+	{{"switch", "--time=16:00", "--resume"}, {"switch", "-t", "16:00", "-R"}},
+	{{"start", "--time=16:00", "--resume-nth=1"}, {"start", "-t", "16:00", "-N", "1"}},
+	{{"track", "--date=2021-03-11", "1h alias"}, {"track", "-d", "2021-03-11", "1h alias"}},
+	{{"stop", "--yesterday", "--time=23:00"}, {"stop", "--yesterday", "-t", "23:00"}},
+}
+
+var c04SpellingConfigs = []string{"", "default_should_total = 8h!\n", "default_rounding = 30m\ndate_format = YYYY/MM/DD\n", "default_should_total = 6h!\ntime_convention = 12h\n"}
+
+func c04Spellings(c *fw.Ctx, only int) {
+	dir := filepath.Join(fw.Scratch(), "c04sp")
+	os.MkdirAll(dir, 0755)
+	home := clidrv.Home("home")
+	path := filepath.Join(dir, "t.klg")
+	n := 0
+	for _, pair := range c04SpellingPairs {
+		for ii, init := range c04Init {
+			for ci, cfg := range c04SpellingConfigs {
+				n++
+				if only >= 0 && n-1 != only {
+					continue
+				}
+				var res [2]clidrv.Result
+				var after [2]string
+				for k := 0; k < 2; k++ {
+					os.WriteFile(path, []byte(init), 0644)
+					res[k] = clidrv.Run(home, clidrv.Opts{Now: c04Env.Clock(), ConfigFile: cfg}, append(append([]string{}, pair[k]...), "--no-style", path)...)
+					after[k] = clidrv.ReadFile(path)
+				}
+				c.Eval(1)
+				c.Nontrivial(fw.HashMix(fw.HashString(strings.Join(pair[1], " ")), uint64(ii*100+ci)+1<<44))
+				cs := c04Case{Init: ii, Spelling: n, Args: pair[1]}
+				if res[1].Panicked {
+					c.Violation("panic:spelling:"+fw.PanicSite(res[1].Stack), cs, fmt.Sprintf("`klog %s` panicked: %v\n%s", strings.Join(pair[1], " "), res[1].PanicVal, res[1].Stack))
+					return
+				}
+				if res[0].Code != res[1].Code || after[0] != after[1] {
+					c.Violation("spelling-changes-effect", cs, fmt.Sprintf("with config %q on file %q:\n`klog %s` -> exit %d, file %q\n`klog %s` -> exit %d, file %q\n(the two spellings denote the same command)",
+						cfg, init, strings.Join(pair[0], " "), res[0].Code, after[0], strings.Join(pair[1], " "), res[1].Code, after[1]))
+					return
+				}
+				if res[0].Code == 0 {
+					c.Outcome("spelling-ok")
+				} else {
+					c.Outcome("spelling-both-fail")
+				}
+			}
+		}
+	}
 }
 
 func c04Depth(tier fw.Tier) int {
@@ -132,7 +196,7 @@ func init() {
 	fw.Register(&fw.Check{
 		ID:    "C04",
 		Title: "Mutating commands have exactly their intended effect over any command history",
-		Rule: "explicit-state search over command histories: state = the bytes of the target file; " + fmt.Sprint(len(c04Init)) + " initial files (empty, blank-only, empty record, open ranges with tags / multi-line summaries, sorted with gaps, yesterday's open range, duplicate date, CRLF+tab+slash+12h style, no final newline, unsorted, existing pause entries) " +
+		Rule: "explicit-state search over command histories: state = the bytes of the target file; (plus a spelling family: " + fmt.Sprint(len(c04SpellingPairs)) + " alias / short-flag spellings x all initial files x 4 configurations must have exactly the effect of the canonical spelling) " + fmt.Sprint(len(c04Init)) + " initial files (empty, blank-only, empty record, open ranges with tags / multi-line summaries, sorted with gaps, yesterday's open range, duplicate date, CRLF+tab+slash+12h style, no final newline, unsorted, existing pause entries) " +
 			"x ALL sequences of <=3 (quick) / 4 (thorough) commands over a " + fmt.Sprint(len(c04Ops())) + "-command alphabet (track x entry kinds x 4 dates incl. invalid text and re-indenting continuation; start x times incl. shifted and 12h x summary/--resume/--resume-nth 1,-1,7/conflicts; stop x times incl. before start and next day x one- and two-line summaries; switch likewise; create x dates x should x two-line summary; pause plain/-s/--no-tags/--extend with tick sequences incl. clock jumps), " +
 			"plus for every initial file with an open range ALL tick sequences of <=3 (quick) / 4 (thorough) deltas from {0,30,60,61,125,3600,-60 s} x 4 pause variants. The first command of every history and every 16th deeper one go through the complete CLI, the rest run the command structs directly. " +
 			"states are deduplicated by hash(bytes, remaining depth); distinct_nontrivial counts distinct file states reached.",
@@ -141,9 +205,13 @@ func init() {
 			"the clock is fixed (2021-03-10 14:07) for commands without --time; the per-minute behaviour of the clock is C17's subject",
 			"new-record position: exact for ascending-sorted files, any position that keeps the old records' order otherwise; --resume from the previous record is a don't-care when several records share the latest earlier date",
 		},
-		Units: func(t fw.Tier) int { return len(c04Init)*len(c04Ops()) + c04PauseUnits(t) },
+		Units: func(t fw.Tier) int { return len(c04Init)*len(c04Ops()) + c04PauseUnits(t) + 1 },
 		RunUnit: func(c *fw.Ctx, unit int) {
 			ops := c04Ops()
+			if unit == len(c04Init)*len(ops)+c04PauseUnits(c.Tier) {
+				c04Spellings(c, -1)
+				return
+			}
 			if unit >= len(c04Init)*len(ops) {
 				c04PauseUnit(c, unit-len(c04Init)*len(ops))
 				return
@@ -161,6 +229,10 @@ func init() {
 		Replay: func(c *fw.Ctx, raw json.RawMessage) {
 			var cs c04Case
 			if json.Unmarshal(raw, &cs) != nil {
+				return
+			}
+			if cs.Spelling > 0 {
+				c04Spellings(c, cs.Spelling-1)
 				return
 			}
 			x := &c04Explorer{c: c, init: cs.Init, visited: map[uint64]bool{}}
@@ -222,7 +294,7 @@ func (x *c04Explorer) explore(state string, hist []Op, depth int) {
 func (x *c04Explorer) step(before string, hist []Op, viaCLI bool) (string, bool) {
 	c := x.c
 	o := hist[len(hist)-1]
-	cs := func() c04Case { return c04Case{x.init, hist, viaCLI} }
+	cs := func() c04Case { return c04Case{Init: x.init, History: hist, ViaCLI: viaCLI} }
 	path := filepath.Join(x.dir, "target.klg")
 	os.WriteFile(path, []byte(before), 0644)
 	refBefore := sm.ParseLenient(before)
